@@ -45,6 +45,11 @@ pub open spec fn fitted<T: Ord + Clone + FromPrimitive + NumOps + Zero>(data: Se
             &&& r matches Ok(b) ==> b.min == data[kmin] && b.max == data[kmax] && b.bin_width == w
         })
 }
+// the error clause on its own (C17): EmptyInput exactly for no data - any other failure is the Strategy error
+pub open spec fn err_kind<B>(n: nat, r: Result<B, BinsBuildError>) -> bool {
+    &&& (n == 0 ==> r == Err::<B, BinsBuildError>(BinsBuildError::EmptyInput))
+    &&& (n > 0 && r is Err ==> r == Err::<B, BinsBuildError>(BinsBuildError::Strategy))
+}
 pub open spec fn strat_pre<T: Ord + Clone + FromPrimitive + NumOps + Zero>() -> bool {
     lawful_ord::<T>() && lawful_clone::<T>() && float_like::<T>() && width_ok::<T>()
 }
@@ -53,12 +58,14 @@ impl<T> Sqrt<T>
 where
     T: Ord + Clone + FromPrimitive + NumOps + Zero,
 {
-//@extract file=src/histogram/strategies.rs impl=BinsBuildingStrategy:Sqrt fn=from_array id=Sqrt::from_array tags=C12,C17
+//@extract file=src/histogram/strategies.rs impl=BinsBuildingStrategy:Sqrt fn=from_array id=Sqrt::from_array tags=C12,C17 body_tags=C12
 //@sig
     fn from_array(a: &ArrayN<T, Ix1>) -> (r: Result<Self, BinsBuildError>)
 //@spec
         requires strat_pre::<T>(),
-        ensures fitted(a@, sqrt_bins(a@.len() as usize), match r { Ok(s) => Ok(s.builder), Err(e) => Err(e) }), // [C12,C17]
+        ensures
+            err_kind(a@.len(), r), // [C12,C17]
+            fitted(a@, sqrt_bins(a@.len() as usize), match r { Ok(s) => Ok(s.builder), Err(e) => Err(e) }), // [C12] which data are rejected, and what the builder is fitted to
 //@replace_text
 (n_elems as f64).sqrt().round() as usize
 verif_sqrt_bins(n_elems)
@@ -72,12 +79,14 @@ impl<T> Rice<T>
 where
     T: Ord + Clone + FromPrimitive + NumOps + Zero,
 {
-//@extract file=src/histogram/strategies.rs impl=BinsBuildingStrategy:Rice fn=from_array id=Rice::from_array tags=C12,C17
+//@extract file=src/histogram/strategies.rs impl=BinsBuildingStrategy:Rice fn=from_array id=Rice::from_array tags=C12,C17 body_tags=C12
 //@sig
     fn from_array(a: &ArrayN<T, Ix1>) -> (r: Result<Self, BinsBuildError>)
 //@spec
         requires strat_pre::<T>(),
-        ensures fitted(a@, rice_bins(a@.len() as usize), match r { Ok(s) => Ok(s.builder), Err(e) => Err(e) }), // [C12,C17]
+        ensures
+            err_kind(a@.len(), r), // [C12,C17]
+            fitted(a@, rice_bins(a@.len() as usize), match r { Ok(s) => Ok(s.builder), Err(e) => Err(e) }), // [C12] which data are rejected, and what the builder is fitted to
 //@replace_text
 (2. * (n_elems as f64).powf(1. / 3.)).round() as usize
 verif_rice_bins(n_elems)
@@ -91,12 +100,14 @@ impl<T> Sturges<T>
 where
     T: Ord + Clone + FromPrimitive + NumOps + Zero,
 {
-//@extract file=src/histogram/strategies.rs impl=BinsBuildingStrategy:Sturges fn=from_array id=Sturges::from_array tags=C12,C17
+//@extract file=src/histogram/strategies.rs impl=BinsBuildingStrategy:Sturges fn=from_array id=Sturges::from_array tags=C12,C17 body_tags=C12
 //@sig
     fn from_array(a: &ArrayN<T, Ix1>) -> (r: Result<Self, BinsBuildError>)
 //@spec
         requires strat_pre::<T>(),
-        ensures fitted(a@, sturges_bins(a@.len() as usize), match r { Ok(s) => Ok(s.builder), Err(e) => Err(e) }), // [C12,C17]
+        ensures
+            err_kind(a@.len(), r), // [C12,C17]
+            fitted(a@, sturges_bins(a@.len() as usize), match r { Ok(s) => Ok(s.builder), Err(e) => Err(e) }), // [C12] which data are rejected, and what the builder is fitted to
 //@replace_text
 (n_elems as f64).log2().round() as usize + 1
 verif_sturges_bins(n_elems)
@@ -104,6 +115,99 @@ verif_sturges_bins(n_elems)
 //@try_desugar 1
 //@at entry
         proof { lemma_no_nan(a@); }
+//@end
+}
+
+// the same with an arbitrary width w (FreedmanDiaconis derives it from the interquartile range, not from max - min)
+pub open spec fn fitted_w<T: Ord + Clone + FromPrimitive + NumOps + Zero>(data: Seq<T>, w: T, r: Result<EquiSpaced<T>, BinsBuildError>) -> bool {
+    &&& data.len() == 0 ==> r == Err::<EquiSpaced<T>, BinsBuildError>(BinsBuildError::EmptyInput)
+    &&& data.len() > 0 ==> exists|kmin: int, kmax: int| #![trigger data[kmin], data[kmax]] is_min_at(data, kmin) && is_max_at(data, kmax) && ({
+            &&& r is Err <==> (le(w, T::zero_spec()) || le(data[kmax], data[kmin]))
+            &&& r is Err ==> r == Err::<EquiSpaced<T>, BinsBuildError>(BinsBuildError::Strategy)
+            &&& r matches Ok(b) ==> b.min == data[kmin] && b.max == data[kmax] && b.bin_width == w
+        })
+}
+impl<T> FreedmanDiaconis<T>
+where
+    T: Ord + Clone + FromPrimitive + NumOps + Zero,
+{
+//@extract file=src/histogram/strategies.rs impl=FreedmanDiaconis fn=compute_bin_width id=FreedmanDiaconis::compute_bin_width tags=C12
+//@sig
+    fn compute_bin_width(n_bins: usize, iqr: T) -> (r: T)
+//@spec
+        requires fd_ok::<T>(),
+        ensures r == fd_width_spec(n_bins, iqr), // [C12] 2 * IQR / n^(1/3) with the type's own operators
+//@replace_text
+(n_bins as f64).powf(1. / 3.)
+verif_cbrt(n_bins)
+//@end
+
+//@extract file=src/histogram/strategies.rs impl=BinsBuildingStrategy:FreedmanDiaconis fn=from_array id=FreedmanDiaconis::from_array tags=C12,C17 body_tags=C12
+//@sig
+    fn from_array(a: &ArrayN<T, Ix1>) -> (r: Result<Self, BinsBuildError>)
+//@spec
+        requires strat_pre::<T>(), fd_ok::<T>(),
+        ensures
+            err_kind(a@.len(), r), // [C12,C17]
+            fitted_w(a@, fd_width_of(a@), match r { Ok(s) => Ok(s.builder), Err(e) => Err(e) }), // [C12]
+//@replace_text
+n64(0.25)
+verif_q25()
+//@replace_text
+n64(0.75)
+verif_q75()
+//@try_desugar 0
+//@try_desugar 1
+//@at entry
+        proof { lemma_no_nan(a@); }
+//@end
+}
+
+impl<T> Sturges<T>
+where
+    T: Ord + Clone + FromPrimitive + NumOps + Zero,
+{
+//@extract file=src/histogram/strategies.rs impl=Sturges fn=bin_width id=Sturges::bin_width tags=C12
+//@sig
+    pub fn bin_width(&self) -> (r: T)
+//@spec
+        ensures lawful_clone::<T>() ==> r == self.builder.bin_width, // [C12]
+//@end
+}
+impl<T> FreedmanDiaconis<T>
+where
+    T: Ord + Clone + FromPrimitive + NumOps + Zero,
+{
+//@extract file=src/histogram/strategies.rs impl=FreedmanDiaconis fn=bin_width id=FreedmanDiaconis::bin_width tags=C12
+//@sig
+    pub fn bin_width(&self) -> (r: T)
+//@spec
+        ensures lawful_clone::<T>() ==> r == self.builder.bin_width, // [C12]
+//@end
+}
+// the equispaced builder an Auto strategy ends up with
+pub open spec fn auto_builder<T>(s: Auto<T>) -> EquiSpaced<T> {
+    match s.builder { SturgesOrFD::Sturges(b) => b.builder, SturgesOrFD::FreedmanDiaconis(b) => b.builder }
+}
+impl<T> Auto<T>
+where
+    T: Ord + Clone + FromPrimitive + NumOps + Zero,
+{
+//@extract file=src/histogram/strategies.rs impl=BinsBuildingStrategy:Auto fn=from_array id=Auto::from_array tags=C12,C17 body_tags=C12
+//@sig
+    fn from_array(a: &ArrayN<T, Ix1>) -> (r: Result<Self, BinsBuildError>)
+//@spec
+        requires strat_pre::<T>(), fd_ok::<T>(),
+        ensures
+            a@.len() == 0 ==> r matches Err(BinsBuildError::EmptyInput), // [C12,C17]
+            a@.len() > 0 && r is Err ==> r matches Err(BinsBuildError::Strategy), // [C12,C17]
+            // ... and it fails only when both candidate strategies fail: constant data, or both widths non-positive
+            a@.len() > 0 && r is Err ==> exists|kmin: int, kmax: int| #![trigger a@[kmin], a@[kmax]] is_min_at(a@, kmin) && is_max_at(a@, kmax)
+                && (le(a@[kmax], a@[kmin]) || (le(fd_width_of(a@), T::zero_spec()) && le(width_spec(a@[kmin], a@[kmax], sturges_bins(a@.len() as usize)), T::zero_spec()))), // [C12,C17]
+            // otherwise one of the two fitted builders: minimum and maximum of the data, a positive width
+            r matches Ok(s) ==> exists|kmin: int, kmax: int| #![trigger a@[kmin], a@[kmax]] is_min_at(a@, kmin) && is_max_at(a@, kmax)
+                && auto_builder(s).min == a@[kmin] && auto_builder(s).max == a@[kmax] && !le(auto_builder(s).bin_width, T::zero_spec()), // [C12]
+//@binop cmp 0 verif_val
 //@end
 }
 
